@@ -126,7 +126,9 @@ def domains(scratch=None):
         INT: [0, 1, 2],
         STR: ["", "a", "ab", "é\n"],
         BYTES: [b"", b"a\xff", b"a"],
-        LIST: [[], [1], [1, 2], [2, 1], [1, 1], (1, 2), (1, 2, 2), [2, 1, 1]],
+        LIST: [[], [1], [1, 2], [2, 1], [1, 1], (1, 2), (1, 2, 2), [2, 1, 1],
+               # equal elements that are different things (1 == 1.0): each one is still an element
+               [1, 1.0]],
         DICT: [{}, {"x": 1}, {"x": 1, "y": 2}, {"y": 1}, {"x": 2}, {"x": 1, "y": 0}, {"z": None}, {"x": 0}, {1: 0, "y": 0, "x": 1},
                # dict subclasses that answer for missing keys (__missing__)
                collections.Counter({"x": 1}), collections.defaultdict(int, {"x": 2}),
@@ -231,6 +233,8 @@ def leaves(scratch=None):
     add(LIST, "SameMembers([1, 1, 2])", lambda: M.SameMembers([1, 1, 2]), lambda v: sorted(v) == [1, 1, 2])
     # ("two iterators", says the docstring)
     add(LIST, "SameMembers(iter([2, 1]))", lambda: M.SameMembers(iter([2, 1])), lambda v: sorted(v) == [1, 2])
+    # (a preprocessor whose result can be used once: it has to be applied afresh for every match)
+    add(LIST, "AfterPreprocessing(iter, Contains(2))", lambda: M.AfterPreprocessing(iter, M.Contains(2)), lambda v: 2 in v)
     add(LIST, "Contains(1)", lambda: M.Contains(1), lambda v: 1 in v)
     add(LIST, "ContainsAll([1, 2])", lambda: M.ContainsAll([1, 2]), lambda v: 1 in v and 2 in v)
     add(LIST, "HasLength(2)", lambda: M.HasLength(2), lambda v: len(v) == 2)
